@@ -275,8 +275,12 @@ def o75(ctx):
         ctx.finding(Q2, ral[0].node if ral else fn, "the angles_order option must be passed on to rot_angles_load", ral[0].node if ral else fn, m)
 
 
-def obligations():
+def _obligations():
     return [
         Obligation("O7.1", "clean_by_distance: group isolation, visit order, distance of complete positions < d, self-exclusion, kept-only", o71, floor=14),
         Obligation("O7.5", "scores_extract_particles: threshold, descending order, radius = diameter, tree/index agreement, fill wiring", o75, floor=16),
     ]
+
+
+def obligations():
+    return _obligations() + [effects_obligation("C07")]
